@@ -356,11 +356,69 @@ fn oracle_entry(text: &str, seen: &mut std::collections::HashSet<String>, out: &
     }
 }
 
+/// Protects the harness process itself: roxmltree recurses per nesting level, so the harness only
+/// parses documents (for the oracle table and the tree dump) whose nesting the same kind of scan
+/// as the crate's check_depth finds to be at most 256.  (What the READER does with deep documents
+/// is observed through E57Reader::new, not through this function.)
+pub fn too_deep(bytes: &[u8]) -> bool {
+    fn find_after(b: &[u8], start: usize, pat: &[u8]) -> usize {
+        let mut i = start;
+        while i + pat.len() <= b.len() {
+            if &b[i..i + pat.len()] == pat {
+                return i + pat.len();
+            }
+            i += 1;
+        }
+        b.len()
+    }
+    let (mut depth, mut i) = (0usize, 0usize);
+    while i < bytes.len() {
+        if bytes[i] != b'<' {
+            i += 1;
+        } else if bytes[i..].starts_with(b"<!--") {
+            i = find_after(bytes, i + 4, b"-->");
+        } else if bytes[i..].starts_with(b"<![CDATA[") {
+            i = find_after(bytes, i + 9, b"]]>");
+        } else if bytes[i..].starts_with(b"<?") {
+            i = find_after(bytes, i + 2, b"?>");
+        } else if bytes[i..].starts_with(b"<!") {
+            i = find_after(bytes, i + 2, b">");
+        } else if bytes[i..].starts_with(b"</") {
+            depth = depth.saturating_sub(1);
+            i = find_after(bytes, i + 2, b">");
+        } else {
+            let mut quote: Option<u8> = None;
+            let mut j = i + 1;
+            while j < bytes.len() {
+                match quote {
+                    Some(q) if bytes[j] == q => quote = None,
+                    Some(_) => {}
+                    None if bytes[j] == b'"' || bytes[j] == b'\'' => quote = Some(bytes[j]),
+                    None if bytes[j] == b'>' => break,
+                    None => {}
+                }
+                j += 1;
+            }
+            if !(j < bytes.len() && bytes[j - 1] == b'/') {
+                depth += 1;
+                if depth > 256 {
+                    return true;
+                }
+            }
+            i = j + 1;
+        }
+    }
+    false
+}
+
 /// Rust's float parser on "0" and on every text node and attribute value of the document
 pub fn oracle_table(xml: &[u8]) -> String {
     let mut out = Vec::new();
     let mut seen = std::collections::HashSet::new();
     oracle_entry("0", &mut seen, &mut out);
+    if too_deep(xml) {
+        return out.join(" ");
+    }
     if let Ok(text) = std::str::from_utf8(xml) {
         if let Some(Ok(doc)) = guard(|| roxmltree::Document::parse(text)) {
             for n in doc.descendants() {
@@ -386,7 +444,7 @@ pub fn run(kind: &str, toks: &[&str]) -> Option<String> {
                 "{} ;; {} ;; {}",
                 extract(&xml),
                 oracle_table(&xml),
-                crate::ext::ext_xmltree::dump_document(&xml)
+                if std::str::from_utf8(&xml).is_ok() && too_deep(&xml) { "too-deep".to_string() } else { crate::ext::ext_xmltree::dump_document(&xml) }
             ))
         }
         "XMETA" => Some(extract(&unhex(toks.first().copied().unwrap_or("")))),
